@@ -7,6 +7,7 @@ package main
 //  which=0  with (9 #event #source ((#k #v)...)) as the event: one antispam rule over antispam data, see config.go
 //  which=2  (tree|0 #mode invert (cond...) (event...) now tables)  processor.isMatch    -> (bit...) | (2)
 //  which=3  same case, through fd.SetupActions + a real pipeline with a discard action -> (bit...) | (2)
+//  which=4  (route #mode invert ((path json-value)...) (event...) tables)  the match_fields map as written, see matchcfg.go
 
 import (
 	"encoding/json"
@@ -123,6 +124,8 @@ func c14Exec(which int, cs hx.Sx) hx.Sx {
 		return execIsMatch(it)
 	case 3:
 		return execPipeline(it)
+	case 4:
+		return execMatchCfg(it)
 	}
 	panic("c14: unknown which")
 }
@@ -228,7 +231,11 @@ func execPipeline(it []hx.Sx) hx.Sx {
 	if err != nil {
 		return obsBadEvt
 	}
-	evs := hx.Items(it[4])
+	return runDiscardPipeline(actions, hx.Items(it[4]))
+}
+
+// the pipeline part of which = 3 / which = 4 route 1: `actions` is the actions array of a pipeline configuration
+func runDiscardPipeline(actions *simplejson.Json, evs []hx.Sx) hx.Sx {
 	var out hx.Sx
 	pmsg := hx.Catch(func() {
 		p, input, output := test.NewPipelineMock(nil, "passive", "name")
